@@ -21,6 +21,12 @@ def styleInvalid : Style := { attrs := attrInvalid }
     the correspondence driver takes the variant from the case line (`+lg` after the entry name, see Driver/Draw.lean). -/
 def currentGuardsLockedNeighbour : Bool := true
 
+/-- THE SWITCH for fixes/C13-locked-wide-walk.patch (proposed, NOT in /repo): `false` = the tree as it is — drawCell
+    narrows a wide rune whose right neighbour is locked only when it *paints* it, so the width it returns to the draw
+    loop (and hence which columns the loop skips) depends on whether the cell happened to be dirty; `true` = the narrowing is
+    decided before the Dirty check, the loop's walk depends on contents and locks only.  See finding C13-locked-wide-walk. -/
+def currentWalkGuard : Bool := false
+
 /-- static configuration of a screen as far as drawing is concerned -/
 structure DrawCfg where
   rw : Rune → Int
@@ -30,13 +36,16 @@ structure DrawCfg where
   hasCursorRGB : Bool := false                  -- t.cursorRGB ≠ "" (always, after prepareCursorStyles)
   cornerTrick : Bool                            -- ti.AutoMargin ∧ ti.DisableAutoMargin = "" ∧ ti.InsertChar ≠ ""  (tscreen.go:815)
   guardLocked : Bool := currentGuardsLockedNeighbour  -- drawCell tests `t.cells.locked(x+1, y)` (repaired tree only)
-  fillZW : Bool := currentFillBlanksZeroWidth         -- CellBuffer.Fill stores width 0 for a zero-width rune (fixes/C09-fill-zero-width.patch)
+  fillZW : Bool := currentFillBlanksZeroWidth         -- CellBuffer.Fill stores a blank for a zero-width rune (fixes/C09-fill-zero-width.patch)
+  walkGuard : Bool := currentWalkGuard                -- drawCell applies that test *before* the Dirty check (proposed fix)
 
-/-- the configurations the Layer-A invariant proofs of C01/C13 cover: no bottom-right insert-character trick, and the
-    pinned drawCell (no locked-neighbour guard).  For `guardLocked = true` see `Tcell.Props.C13` (repaired variant). -/
+/-- the configurations the Layer-A invariant proofs of C01/C13 cover: no bottom-right insert-character trick; the
+    locked-neighbour guard of drawCell may be compiled in or not (`guardLocked` arbitrary: the pinned tree, the tree
+    repaired by fixes/C13-wide-left-of-locked.patch, and — `walkGuard = true`, which presupposes `guardLocked` — the tree
+    with fixes/C13-locked-wide-walk.patch on top). -/
 structure DrawCfg.Plain (c : DrawCfg) : Prop where
   ct : c.cornerTrick = false
-  ng : c.guardLocked = false
+  wg : c.walkGuard = true → c.guardLocked = true
 
 /-- abstract commands emitted by the draw path, in order; `Render.render` turns each into bytes -/
 inductive Cmd where
@@ -103,9 +112,15 @@ def paint (c : DrawCfg) (s : Scr) (x y : Int) : Scr × List Cmd × Int :=
   let cx := if width2 > 1 then -1 else s.cx + width2
   ({ s with curstyle := style, cx := cx, cells := s.cells.setDirty x y false }, penCmds ++ [.put str width2], width2)
 
+/-- what drawCell returns for a cell that is not dirty (tscreen.go:819-822): GetContent's width; with
+    fixes/C13-locked-wide-walk.patch a wide rune whose right neighbour is locked counts one column here too -/
+def retWidth (c : DrawCfg) (s : Scr) (x y : Int) : Int :=
+  if c.walkGuard = true ∧ (s.cells.getContent x y).2.2.2 > 1 ∧ s.cells.locked (x + 1) y = true then 1
+  else (s.cells.getContent x y).2.2.2
+
 /-- drawCell without the bottom-right corner trick (tscreen.go:806-813, 832-836, then `paint`) -/
 def drawCellPlain (c : DrawCfg) (s : Scr) (x y : Int) : Scr × List Cmd × Int :=
-  if ¬ s.cells.dirty x y then (s, [], (s.cells.getContent x y).2.2.2)
+  if ¬ s.cells.dirty x y then (s, [], s.retWidth c x y)
   else
     let (s1, g) := if s.cy ≠ y ∨ s.cx ≠ x then ({ s with cx := x, cy := y }, [Cmd.goto x y]) else (s, [])
     let (s2, cmds, wd) := paint c s1 x y
@@ -131,7 +146,7 @@ def cornerPx (s1 : Scr) (x y : Int) : Int :=
 
 /-- tscreen.go:806 drawCell -/
 def drawCell (c : DrawCfg) (s : Scr) (x y : Int) : Scr × List Cmd × Int :=
-  if ¬ s.cells.dirty x y then (s, [], (s.cells.getContent x y).2.2.2)
+  if ¬ s.cells.dirty x y then (s, [], s.retWidth c x y)
   else if y = s.h - 1 ∧ x = s.w - 1 ∧ c.cornerTrick then
     -- write what belongs in the last cell one column to the left, shift it into place with ich1, repaint the neighbour
     let (s1, cmds1, wd) := paint c s x y
